@@ -744,7 +744,11 @@ func writeEvidence(ev *Evidence) {
 		ev.Inconclusive = []string{}
 	}
 	b, _ := json.MarshalIndent(ev, "", " ")
-	os.WriteFile(filepath.Join(verifDir, "evidence", ev.PropertyID+".json"), b, 0o644)
+	evDir := "evidence"
+	if strings.HasPrefix(ev.PropertyID, "_") { // engine self-checks (conformance) are not property evidence
+		evDir = "out"
+	}
+	os.WriteFile(filepath.Join(verifDir, evDir, ev.PropertyID+".json"), b, 0o644)
 }
 
 func cmdReplay(args []string) int {
